@@ -61,6 +61,11 @@ FROZEN_RETURNS_TUPLE0 = {'iterable_to_array_1d', 'prepare_iter_for_array_x'}
 # returns a new writeable array (explicitly documented as not frozen)
 FRESH_RETURNS = {'full_for_fill', 'isna_array', 'array_to_duplicated', 'binary_transition', 'roll_1d', 'roll_2d', 'array_to_groups_and_locations',
                  'ufunc_unique', 'dtype_to_fill_value', '_ufunc_set_1d_x', 'blocks_to_array_2d', 'column_2d_filter_x'}
+# methods (on any receiver) that return a new array; every function of that name in the analysed modules is checked at its return sites
+FRESH_RETURN_METHODS = {'iloc_searchsorted'}
+# methods of this package's containers that return a container (never an ndarray); applied only when the receiver is itself not an ndarray
+CONTAINER_METHODS = {'reindex', 'to_frame', 'to_frame_go', 'to_frame_he', 'to_series', 'relabel', 'rename', 'sort_index', 'sort_columns', 'sort_values',
+                     'set_index', 'set_index_hierarchy', 'unset_index', 'fillna', 'dropna', 'head', 'tail'}
 # pass-through of the argument's state (views / identity)
 VIEW_FUNCS = {'column_2d_filter', 'column_1d_filter', 'row_1d_filter', 'array_deepcopy'}    # result is as writeable/shared as argument 0 (array_deepcopy: a copy carrying the flag)
 
@@ -104,6 +109,7 @@ class FnAnalysis:
         self.module, self.qualname, self.fn, self.gen_yields, self.cls = module, qualname, fn, gen_yields, cls
         self.genv = genv or {}
         self.sites = []
+        self.all_binds = {}
         self.yield_tags = set()
         self.return_tags = set()
         args = fn.args
@@ -135,6 +141,8 @@ class FnAnalysis:
             return self.tags(e.body, env) | self.tags(e.orelse, env)
         if isinstance(e, ast.Subscript):
             base = self.tags(e.value, env)
+            if isinstance(e.value, ast.Name) and e.value.id in getattr(self, 'pure', ()):
+                return {NONARR}      # item of a container built here that only ever receives containers built here / scalars
             if base == {NONARR}:
                 return {UNKNOWN}     # element of a list / dict: unknown provenance
             return base          # view (basic) or copy (advanced): never *more* writeable-and-shared than the base
@@ -163,6 +171,10 @@ class FnAnalysis:
             name = f.id
             if name in NONARR_CALLS:
                 return {NONARR}
+            if name == 'deepcopy':
+                return {FRESH}          # copy.deepcopy: a new object (a new array for an array)
+            if name[:1].isupper() and name not in FROZEN_RETURNS and name not in FRESH_RETURNS:
+                return {NONARR}         # construction of a class instance: containers of this package / stdlib classes are not ndarrays
             if name in FROZEN_RETURNS:
                 return {FROZEN}
             if name in FROZEN_RETURNS_TUPLE0:
@@ -195,6 +207,12 @@ class FnAnalysis:
                 qual = f'{base.id}.{name}'
             if qual in FROZEN_RETURNS or name in FROZEN_RETURNS:
                 return {FROZEN}
+            if name in FRESH_RETURN_METHODS:
+                return {FRESH}
+            if name[:1].isupper() and isinstance(base, ast.Name) and base.id not in ('np',) and name not in ('T',):
+                return {NONARR}         # module.Class(...) / cls.Class(...): an instance, not an ndarray
+            if name in CONTAINER_METHODS and self.tags(base, env) <= {NONARR}:
+                return {NONARR}         # a container method of this package returning a container (assumed table)
             if name in METH_FRESH:
                 if name == 'astype':
                     cp = [k for k in e.keywords if k.arg == 'copy']
@@ -246,8 +264,80 @@ class FnAnalysis:
             if not t <= {NONARR}:
                 self.site('G2', node, f'{what}:<expr>', t, {FRESH, NONARR})
 
+    # ---- pure containers ---------------------------------------------------------------------------
+    def pure_containers(self):
+        """names bound only to containers built in this function (dict()/list()/literals, or items / aliases of such containers) into which
+        only such containers or scalars are ever stored: a subscript load from one of them cannot be an ndarray (greatest fixpoint,
+        flow-insensitive)"""
+        fn = self.fn
+        own = [n for n in ast.walk(fn)]
+        inner = {id(x) for f2 in own if isinstance(f2, (ast.FunctionDef, ast.AsyncFunctionDef, ast.Lambda)) and f2 is not fn for x in ast.walk(f2)}
+        binds, stores = {}, {}
+
+        def rec(d, k, v):
+            d.setdefault(k, []).append(v)
+        for n in own:
+            if id(n) in inner:
+                continue
+            if isinstance(n, (ast.Assign, ast.AnnAssign)) and n.value is not None:
+                tgts = n.targets if isinstance(n, ast.Assign) else [n.target]
+                for t in tgts:
+                    if isinstance(t, ast.Name):
+                        rec(binds, t.id, n.value)
+                    elif isinstance(t, ast.Subscript) and isinstance(t.value, ast.Name):
+                        rec(stores, t.value.id, n.value)
+                    elif isinstance(t, (ast.Tuple, ast.List)):
+                        for el in ast.walk(t):
+                            if isinstance(el, ast.Name):
+                                rec(binds, el.id, None)
+            elif isinstance(n, (ast.For, ast.comprehension)):
+                for el in ast.walk(n.target):
+                    if isinstance(el, ast.Name):
+                        rec(binds, el.id, None)
+            elif isinstance(n, (ast.With,)):
+                for it in n.items:
+                    if it.optional_vars is not None:
+                        for el in ast.walk(it.optional_vars):
+                            if isinstance(el, ast.Name):
+                                rec(binds, el.id, None)
+            elif isinstance(n, ast.AugAssign) and isinstance(n.target, ast.Name):
+                rec(binds, n.target.id, None)
+            elif isinstance(n, ast.Call) and isinstance(n.func, ast.Attribute) and isinstance(n.func.value, ast.Name) \
+                    and n.func.attr in ('append', 'extend', 'insert', 'setdefault', 'update', 'add', 'appendleft'):
+                for a in list(n.args) + [k.value for k in n.keywords]:
+                    rec(stores, n.func.value.id, a)
+        cand = {k for k in binds if k not in self.params}
+
+        def ok_value(v, cand):
+            if v is None:
+                return False
+            if isinstance(v, (ast.Constant, ast.Dict, ast.List, ast.Set, ast.DictComp, ast.ListComp, ast.SetComp)):
+                if isinstance(v, (ast.Dict, ast.List, ast.Set)):
+                    parts = (v.values if isinstance(v, ast.Dict) else v.elts)
+                    return all(p is not None and ok_value(p, cand) for p in parts)
+                return isinstance(v, ast.Constant)
+            if isinstance(v, ast.Call) and isinstance(v.func, ast.Name) and v.func.id in ('dict', 'list', 'set', 'OrderedDict', 'defaultdict') and not v.args and not v.keywords:
+                return True
+            if isinstance(v, ast.Name):
+                return v.id in cand
+            if isinstance(v, ast.Subscript) and isinstance(v.value, ast.Name):
+                return v.value.id in cand
+            if isinstance(v, ast.Tuple):
+                return all(ok_value(p, cand) for p in v.elts)
+            return False
+        changed = True
+        while changed:
+            changed = False
+            for k in list(cand):
+                if not all(ok_value(v, cand) for v in binds.get(k, [])) or not all(ok_value(v, cand) for v in stores.get(k, [])):
+                    cand.discard(k)
+                    changed = True
+        # a scalar-only name is harmless but useless; keep names that are containers at least once
+        return cand
+
     # ---- statements -----------------------------------------------------------------------------------
     def run(self):
+        self.pure = self.pure_containers()
         env = dict((k, set(v)) for k, v in self.genv.items())
         args = self.fn.args
         ann = {a.arg: (ast.unparse(a.annotation) if a.annotation is not None else '') for a in args.posonlyargs + args.args + args.kwonlyargs}
@@ -274,6 +364,7 @@ class FnAnalysis:
     def bind(self, tgt, tags, env, value=None):
         if isinstance(tgt, ast.Name):
             env[tgt.id] = set(tags)
+            self.all_binds.setdefault(tgt.id, set()).update(tags)      # flow-insensitive summary (what nested functions may see of this name)
         elif isinstance(tgt, (ast.Tuple, ast.List)):
             for k, el in enumerate(tgt.elts):
                 t = {UNKNOWN}
@@ -344,6 +435,8 @@ class FnAnalysis:
                 short = self.qualname
                 if (short in FROZEN_RETURNS or short.split('.')[-1] in FROZEN_RETURNS and '.' not in short):
                     self.site('G1', s, 'return-frozen', t, {FROZEN, NONARR}, note='contract: returns a read-only array')
+                if short.split('.')[-1] in FRESH_RETURN_METHODS:
+                    self.site('G2', s, 'return-fresh', t, {FRESH, NONARR}, note='contract: returns a new array (callers may write into it)')
                 if short in FROZEN_RETURNS_TUPLE0 and isinstance(s.value, ast.Tuple) and s.value.elts:
                     e0 = s.value.elts[0]
                     if not (isinstance(e0, ast.Name) and e0.id == self.params[0]):      # handing back the argument itself is the documented case
@@ -456,6 +549,7 @@ class FnAnalysis:
     def assign_target(self, s, tgt, t, env, value):
         if isinstance(tgt, ast.Name):
             env[tgt.id] = set(t)
+            self.all_binds.setdefault(tgt.id, set()).update(t)
         elif isinstance(tgt, (ast.Tuple, ast.List)):
             self.bind(tgt, t, env, value)
         elif isinstance(tgt, ast.Subscript):
@@ -557,17 +651,21 @@ class FnAnalysis:
 
 def iter_functions(tree):
     """(qualname, FunctionDef, class name) for every function incl. methods and nested generators"""
-    def walk(body, prefix, cls):
+    def walk(body, prefix, cls, outer=None):
         for n in body:
             if isinstance(n, ast.ClassDef):
-                yield from walk(n.body, prefix + n.name + '.', n.name)
+                yield from walk(n.body, prefix + n.name + '.', n.name, outer)
             elif isinstance(n, (ast.FunctionDef, ast.AsyncFunctionDef)):
                 yield prefix + n.name, n, cls
-                yield from walk(n.body, prefix + n.name + '.', cls)
+                _OUTER[id(n)] = outer
+                yield from walk(n.body, prefix + n.name + '.', cls, n)
             elif isinstance(n, (ast.If, ast.Try, ast.With, ast.For, ast.While)):
                 for sub in ('body', 'orelse', 'finalbody'):
-                    yield from walk(getattr(n, sub, []) or [], prefix, cls)
+                    yield from walk(getattr(n, sub, []) or [], prefix, cls, outer)
     yield from walk(tree.body, '', None)
+
+
+_OUTER = {}      # id(FunctionDef) -> enclosing FunctionDef (or None)
 
 
 def analyse(repo_root, modules=CORE_MODULES):
@@ -593,8 +691,18 @@ def analyse(repo_root, modules=CORE_MODULES):
         sites = []
         new_yields = {}
         for m, tree in parsed.items():
+            done = {}
             for qual, fn, cls in iter_functions(tree):
-                fa = FnAnalysis(m, qual, fn, gen_yields, cls, genv).run()
+                g2 = genv
+                outer = _OUTER.get(id(fn))
+                if outer is not None and id(outer) in done:
+                    # free variables of a nested function: every state the enclosing function ever binds to that name (flow-insensitive, so
+                    # whenever the nested function runs it sees one of them); its own parameters and locals shadow these
+                    g2 = dict(genv)
+                    for k_, v_ in done[id(outer)].all_binds.items():
+                        g2.setdefault(k_, set(v_))
+                fa = FnAnalysis(m, qual, fn, gen_yields, cls, g2).run()
+                done[id(fn)] = fa
                 is_gen = any(isinstance(x, (ast.Yield, ast.YieldFrom)) for x in ast.walk(fn))
                 if is_gen:
                     new_yields[qual] = fa.yield_tags or {UNKNOWN}
